@@ -11,28 +11,24 @@ with the new body, and the correspondence run looks for a concrete difference me
 import VaxisModel.Gen.SurfaceFacts
 import VaxisModel.Model.SurfaceSource
 
+/-! Round 4: `Surface.render`, `Center.Draw` and both `findContainerSize` are no longer pinned here: their regenerated
+bodies are executed by `Model/SurfExec.lean` and proved equal to the model for all inputs (`Props/C14Body.lean`), so a
+rewrite that keeps their meaning does not alarm and one that changes it fails that function's `body_eq_model`. -/
+
 namespace VaxisModel.Props.C14Facts
 open VaxisModel
-
-theorem facts_renderBody : Gen.SurfaceFacts.renderBody = Model.SurfaceSource.renderBody := by decide +kernel
 
 theorem facts_runFrame : Gen.SurfaceFacts.runFrame = Model.SurfaceSource.runFrame := by decide +kernel
 
 theorem facts_buttonDrawBody : Gen.SurfaceFacts.buttonDrawBody = Model.SurfaceSource.buttonDrawBody := by decide +kernel
 
-theorem facts_centerDrawBody : Gen.SurfaceFacts.centerDrawBody = Model.SurfaceSource.centerDrawBody := by decide +kernel
-
 theorem facts_richtextDrawBody : Gen.SurfaceFacts.richtextDrawBody = Model.SurfaceSource.richtextDrawBody := by decide +kernel
 
 theorem facts_richtextDrawSoftwrapBody : Gen.SurfaceFacts.richtextDrawSoftwrapBody = Model.SurfaceSource.richtextDrawSoftwrapBody := by decide +kernel
 
-theorem facts_richtextFindContainerSizeBody : Gen.SurfaceFacts.richtextFindContainerSizeBody = Model.SurfaceSource.richtextFindContainerSizeBody := by decide +kernel
-
 theorem facts_textDrawBody : Gen.SurfaceFacts.textDrawBody = Model.SurfaceSource.textDrawBody := by decide +kernel
 
 theorem facts_textDrawSoftwrapBody : Gen.SurfaceFacts.textDrawSoftwrapBody = Model.SurfaceSource.textDrawSoftwrapBody := by decide +kernel
-
-theorem facts_textFindContainerSizeBody : Gen.SurfaceFacts.textFindContainerSizeBody = Model.SurfaceSource.textFindContainerSizeBody := by decide +kernel
 
 theorem facts_textfieldDrawBody : Gen.SurfaceFacts.textfieldDrawBody = Model.SurfaceSource.textfieldDrawBody := by decide +kernel
 
